@@ -146,6 +146,20 @@ def global_depths(g):
     return depths
 
 
+def loads(g):
+    """how many times each file is loaded (cycle-free graphs only)"""
+    cnt = {}
+
+    def walk(i):
+        cnt[i] = cnt.get(i, 0) + 1
+        for kind, tgt in g["files"][i]["edges"]:
+            if tgt != "missing":
+                walk(tgt)
+
+    walk(0)
+    return cnt
+
+
 def submodules(g, root):
     out = []
     for i in closure_paths(g, root):
@@ -159,16 +173,18 @@ def parse_tree(j, g):
     """module tree from the JSON dump: recipes -> winning file id via the body marker"""
     def rec(m, name):
         recipes = {}
+        namepaths = {}
         for rn, rv in m["recipes"].items():
             body = json.dumps(rv["body"])
             import re
             mm = re.search(r"\[[URS](\d+)\]", body)
             recipes[rn] = int(mm.group(1)) if mm else None
+            namepaths[rn] = rv.get("namepath")
         vars_ = {}
         for vn, vv in m["assignments"].items():
             val = vv["value"]
             vars_[vn] = int(val[1:]) if isinstance(val, str) and val.startswith("F") else None
-        return {"name": name, "recipes": recipes, "vars": vars_, "subs": {k: rec(v, k) for k, v in m["modules"].items()}}
+        return {"name": name, "recipes": recipes, "namepaths": namepaths, "vars": vars_, "subs": {k: rec(v, k) for k, v in m["modules"].items()}}
     return rec(j, "")
 
 
@@ -350,6 +366,15 @@ def run(report):
                                 multi = any(len(gd.get(i, ())) > 1 for i in cands)
                                 return ("KNOWN" if multi else "") + "module %s: %s from %s (depth %d) should win, got %s" % (
                                     path or "root", name, fname(winners[0]), best, fname(table[name]) if table[name] is not None else None)
+                    # the address of a recipe (`namepath` in the dump) is its module's path and its name, also when the recipe
+                    # came in through an import (files loaded more than once fall under the recorded finding)
+                    gd_ = global_depths(g)
+                    for nm, src_file in tree["recipes"].items():
+                        if src_file is not None and len(gd_.get(src_file, ())) == 1 and loads(g).get(src_file, 0) == 1:
+                            stats["namepaths_checked"] = stats.get("namepaths_checked", 0) + 1
+                            want_np = (path + "::" + nm) if path else nm
+                            if tree.get("namepaths", {}).get(nm) != want_np:
+                                return "module %s: recipe %s has address %s in the dump, declared %s" % (path or "root", nm, tree["namepaths"].get(nm), want_np)
                     subs = submodules(g, root)
                     if sorted(tree["subs"]) != sorted(s[0] for s in subs):
                         return "module %s has submodules %s, declared %s" % (path or "root", sorted(tree["subs"]), sorted(s[0] for s in subs))
@@ -387,7 +412,10 @@ def run(report):
                 report.failure("c15-model", "Lean model reports %s, implementation %s" % (mk, r.get("error", "accepted")),
                                dict(replay, correspondence="C15 vs Just.Imports", model=m), no_input=True)
         else:
-            if r["rc"] != 0 or model_tree(m["tree"]) != r["tree"]:
+            def strip_np(t):
+                return {"name": t["name"], "recipes": t["recipes"], "vars": t["vars"], "subs": {k: strip_np(v) for k, v in t["subs"].items()}}
+
+            if r["rc"] != 0 or model_tree(m["tree"]) != strip_np(r["tree"]):
                 report.failure("c15-model", "Lean model and implementation disagree on the merged module tree",
                                dict(replay, correspondence="C15 vs Just.Imports", model=model_tree(m["tree"]) if "tree" in m else m), no_input=True)
         if len(samples) < 2 and r.get("rc") == 0 and r["tree"]["subs"] and any(len(v) > 1 for v in closure_paths(g, 0).values()):
